@@ -83,16 +83,32 @@ where
         key_bundle: LongTermKeyBundle,
     ) -> Result<KeyRegistryState<ID>, KeyRegistryError> {
         key_bundle.verify()?;
-        let existing = y.identities.insert(id, *key_bundle.identity_key());
-        if let Some(existing) = existing {
-            // Sanity check.
-            assert_eq!(&existing, key_bundle.identity_key());
+        if let Some(existing) = y.identities.get(&id)
+            && existing != key_bundle.identity_key()
+        {
+            return Err(KeyRegistryError::IdentityKeyMismatch);
         }
+        y.identities.insert(id, *key_bundle.identity_key());
         y.longterm_bundles
             .entry(id)
-            .and_modify(|bundles| bundles.push(key_bundle.clone()))
+            .and_modify(|bundles| {
+                if !bundles.contains(&key_bundle) {
+                    bundles.push(key_bundle.clone())
+                }
+            })
             .or_insert(vec![key_bundle]);
         Ok(y)
+    }
+
+    /// Returns `true` if exactly this long-term pre-key bundle is already registered for the member.
+    pub fn has_longterm_bundle(
+        y: &KeyRegistryState<ID>,
+        id: &ID,
+        key_bundle: &LongTermKeyBundle,
+    ) -> bool {
+        y.longterm_bundles
+            .get(id)
+            .is_some_and(|bundles| bundles.contains(key_bundle))
     }
 
     #[cfg(test)]
@@ -205,6 +221,9 @@ pub enum KeyRegistryError {
 
     #[error("all available key bundles of this member expired")]
     KeyBundlesExpired,
+
+    #[error("key bundle was issued with a different identity key than the one known for this member")]
+    IdentityKeyMismatch,
 }
 
 #[cfg(test)]
